@@ -34,9 +34,9 @@ TNew == IsEv("New") /\ LET r == Rec[l] IN
           /\ Logged(r)
 
 TCommit == IsEv("Commit") /\ LET r == Rec[l] IN
-  Bind(Commit(r.S) /\ r.res = CommitRes(kind, cached, r.S),
+  Bind(Commit(r.S, r.cf) /\ r.res = CommitRes(kind, cached, r.S, r.cf),
        HistCommit(r.S, r.res) /\ GhostCommit(r.S, r.res),
-       [name |-> "Commit", S |-> r.S, res |-> r.res])
+       [name |-> "Commit", S |-> r.S, cf |-> r.cf, res |-> r.res])
 
 TReopen == IsEv("Reopen") /\ LET r == Rec[l] IN
   Bind(Reopen, UNCHANGED <<hist, glast, gn, bad>>, [name |-> "Reopen"])
